@@ -81,6 +81,18 @@ var bodies = []body{
 	{tag: "throw-number", src: "throw 12", fails: true},
 	{tag: "throw-after-catch", src: "try { throw \"a\" } catch e { println(\"caught\", e) }\nthrow \"b\"", fails: true},
 	{tag: "throw-rethrow", src: "try { throw \"a\" } catch e { throw e }", fails: true},
+	// ---- error texts that contain '%' (must be reported verbatim, not used as a format) ----
+	{tag: "throw-percent-mid", src: "throw \"disk 100% full\"", fails: true},
+	{tag: "throw-percent-verb", src: "throw \"%d items\"", fails: true},
+	{tag: "throw-percent-end", src: "throw \"50%\"", fails: true},
+	{tag: "throw-percent-only", src: "throw \"%\"", fails: true},
+	{tag: "throw-percent-double", src: "throw \"a%%b\"", fails: true},
+	{tag: "throw-percent-bang", src: "throw \"%!x\"", fails: true},
+	{tag: "throw-percent-verbs", src: "println(\"working\")\nthrow \"%s and %v and %5.2f\"", fails: true},
+	{tag: "throw-multiword", src: "throw \"the quick brown fox: jumps, over\"", fails: true},
+	{tag: "func-throw-percent", src: "func f(n) { throw \"only \" + toString(n) + \"% left\" }\nf(3)", fails: true},
+	{tag: "pkg-unknown-percent", src: "x = import(\"100%/pkg\")", fails: true},
+	{tag: "ok-print-percent", src: "println(\"100% done, %d %s\")\nprintf(\"%d%%\\n\", 5)"},
 	// ---- error inside a function ----
 	{tag: "func-throw", src: "func f() { throw \"in f\" }\nf()", fails: true},
 	{tag: "func-undefined", src: "func f() { return undefined_in_f }\nprintln(f())", fails: true},
